@@ -133,29 +133,98 @@ func diffShape(cs fmttie.Case, lits1, lits2 []string, prog1, prog2 string) strin
 	return "LiteralCountDiffers"
 }
 
+// kinds of the layout family after which the formatter takes a decision of its own (forced line break, rewritten
+// syntax, body white space): every ordered pair that STARTS with one of them is always taken.
+func exhaustiveFirstKind(k string) bool {
+	switch {
+	case strings.Contains(k, "call"), strings.Contains(k, "children"), strings.Contains(k, "comment"), strings.Contains(k, "gocode"):
+		return true
+	case k == "if", k == "if-else", k == "for", k == "switch":
+		return true
+	}
+	return false
+}
+
+// familyInputs: the single-construct families shared with C09 (fmttie/families.go).  Quick tier: every input of the
+// single sweeps, every ordered pair of the layout sweep whose first child is a call / children slot / comment / {{ }} /
+// control-flow kind, one in pairEvery of the other pairs (drawn from the run's PRNG), and shorter random tails; thorough
+// tier: everything.  Sweeps come first so that the first failure reported is the smallest input.
+func familyInputs(c *core.Ctx) []fmttie.GenInput {
+	pairEvery := c.N(1, 1)
+	var sweeps, randoms []fmttie.GenInput
+	take := func(gs []fmttie.GenInput) {
+		for _, g := range gs {
+			switch {
+			case g.Sweep == "":
+				randoms = append(randoms, g)
+			case g.Sweep == "single", g.Family == "layout" && exhaustiveFirstKind(g.Kinds[0]):
+				sweeps = append(sweeps, g)
+			case pairEvery <= 1 || c.Rng.Intn(pairEvery) == 0:
+				g.Tags = append(append([]string{}, g.Tags...), g.Family+" sweep: pairs sampled (quick tier)")
+				sweeps = append(sweeps, g)
+			}
+		}
+	}
+	take(fmttie.LayoutInputs(c.Rng, c.N(250, 12000)))
+	take(fmttie.GoexprInputs(c.Rng, c.N(150, 12000)))
+	return append(sweeps, randoms...)
+}
+
+type differing struct {
+	cs     fmttie.Case
+	base   string // SpaceGainedBetweenNodes | SpaceLostBetweenNodes | ReparsedStructureDiffers | Literal...
+	tieOK  bool   // the baseline formatter model prints this input exactly as the real formatter does
+	t1, t2 string
+}
+
 func Run(c *core.Ctx) {
-	c.Rule = "programs: every .templ file of the repository, grammar-generated templ files and whitespace mutations of both (as C09), restricted to files templ generate accepts (parse + generate + gofmt); distinct non-trivial = distinct accepted inputs; for each, the Go program generated from the file and from its formatted form are compared after masking error positions and gofmt; every top-level node of every accepted input also goes through the embed tie (formatter AST mapped to the generator AST of the same parse) and every template through the reparsed tie (model re-parse against the real parse of the formatted text) and the guard prediction (guards of C08_render_preserved_partial hold => program unchanged)"
+	c.Rule = "programs: (a) the layout family - one element per file, children on one line: every child kind alone, every ordered pair whose first child is a call, children slot, comment, {{ }} or control-flow kind (two separators), a sample of the other ordered pairs (thorough: all), then random lists, parents, attributes, contexts; (b) the goexpr family - Go expressions over several lines in every expression position (position x argument sweeps, then random); (c) every .templ file of the repository, grammar-generated templ files and whitespace mutations of both (as C09); restricted to files templ generate accepts (parse + generate + gofmt); distinct non-trivial = distinct accepted inputs; for each, the Go program generated from the file and from its formatted form are compared after masking error positions and gofmt; every top-level node of every accepted input also goes through the embed tie (formatter AST mapped to the generator AST of the same parse) and every template through the reparsed tie (model re-parse against the real parse of the formatted text) and the guard prediction (guards of C08_render_preserved_partial hold => program unchanged); a program difference is filed under a known shape only when the real formatter printed the baseline model's layout for that input AND one of the guards fails on it"
 	c.Proofs()
-	ins := fmttie.Inputs(c, c.N(150, 2500), c.N(6, 25))
+	shared := fmttie.Inputs(c, c.N(150, 2500), c.N(6, 25))
+	fam := familyInputs(c)
+	// the shared file inputs are formatted first (fmttie sends only the first few hundred ordinary inputs through the whole
+	// `templ fmt` pipeline as well, and that budget stays theirs); the single-construct inputs are REPORTED first
+	type ran struct {
+		cs fmttie.Case
+		ok bool
+	}
+	sharedRan := make([]ran, len(shared))
+	for k, in := range shared {
+		sharedRan[k].cs, sharedRan[k].ok = fmttie.Run(in)
+	}
 	var cases []fmttie.Case
 	var reqs []drv.Req
-	for _, in := range ins {
-		cs, ok := fmttie.Run(in)
+	accept := func(family string, tags []string, cs fmttie.Case, ok bool) {
 		if !ok {
-			c.Hist("input not accepted by templ generate (parse, generate or gofmt fails)")
-			continue
+			c.Hist(family + "input not accepted by templ generate (parse, generate or gofmt fails)")
+			return
+		}
+		if family != "" {
+			c.Hist(family + "accepted")
+		}
+		for _, t := range tags {
+			c.Hist(t)
 		}
 		cases = append(cases, cs)
 		reqs = append(reqs, drv.Req{Fn: "fmt", Args: [][]byte{[]byte(cs.Enc)}})
+	}
+	for _, g := range fam {
+		cs, ok := fmttie.Run(g.In)
+		accept(g.Family+": ", g.Tags, cs, ok)
+	}
+	for _, r := range sharedRan {
+		accept("", nil, r.cs, r.ok)
 	}
 	res := c.Model(reqs)
 	tie1, accepted, same, sameFull := true, true, true, true
 	shapeCount := map[string]int{}
 	differs := map[string]string{} // input name -> shape of the program difference
+	var diffs []differing
 	for i, cs := range cases {
 		c.Count(cs.Name)
 		r := res[i]
-		if len(r) != 5 || string(r[0]) != "ok" || string(r[1]) != cs.P1 {
+		tieOK := len(r) == 5 && string(r[0]) == "ok" && string(r[1]) == cs.P1
+		if !tieOK {
 			tie1 = false
 			if c.NFails("formatter: model first pass = TemplateFile.Write") < 3 {
 				c.Fail("tie", "formatter: model first pass = TemplateFile.Write", "", map[string]string{"file": cs.Name, "source": cs.Src}, "formatted text differs from the model")
@@ -206,25 +275,54 @@ func Run(c *core.Ctx) {
 		_, lits1, _ := generate(cs.Src)
 		t1, t2 := progText(cs.Code), progText(code2)
 		shape := diffShape(cs, lits1, lits2, t1, t2)
-		shapeCount[shape]++
 		differs[cs.Name] = shape
-		c.Hist("program differs: " + shape)
-		if os.Getenv("C08_DEBUG") != "" {
-			a, b := firstDiff(t1, t2)
-			fmt.Fprintf(os.Stderr, "C08_DEBUG %s %s\n--- source\n%s\n--- formatted\n%s\n--- %s\n+++ %s\n", shape, cs.Name, cs.Src, cs.P1, a, b)
-		}
-		if shapeCount[shape] <= 2 {
-			a, b := firstDiff(t1, t2)
-			c.Fail("property", "program generated from the formatted file = program generated from the original", shape,
-				map[string]any{"file": cs.Name, "source": cs.Src, "formatted": cs.P1, "original_program_line": a, "formatted_program_line": b},
-				"formatting changed the generated program (beyond error positions and gofmt layout)")
-		}
+		diffs = append(diffs, differing{cs, shape, tieOK, t1, t2})
 		if i%197 == 0 {
 			c.Sample(map[string]any{"file": cs.Name, "same_program": p1 == p2})
 		}
 	}
 	c.Sample(map[string]any{"inputs": len(cases)})
-	embedFamily(c, cases, differs)
+	guardFails, guardsKnown := embedFamily(c, cases, differs)
+	// A program difference is a failure of the property.  It is filed under the shape of a known finding only when it IS
+	// that finding: (1) the real formatter printed exactly what the baseline formatter model prints for this input (the
+	// known findings are defects of that layout; any other layout is a new cause), and (2) some template of the input
+	// fails a guard of C08_render_preserved_partial (tight block follower / white space where the parser does not put it /
+	// depth) - where all guards hold the theorem predicts an unchanged rendering, and the difference is reported by the
+	// guard-prediction family as guards-hold-program-differs.
+	predicted := true
+	for _, d := range diffs {
+		shape := d.base
+		family := "program generated from the formatted file = program generated from the original"
+		detail := "formatting changed the generated program (beyond error positions and gofmt layout)"
+		switch {
+		case !d.tieOK:
+			shape = "FirstPassNotTheBaselineLayout:" + d.base
+		case !guardsKnown[d.cs.Name]:
+			shape = "GuardsNotEvaluated:" + d.base
+		case !guardFails[d.cs.Name]:
+			family = "guards of C08_render_preserved_partial hold => program generated from the formatted file is unchanged"
+			detail = "every template satisfies trailing_semantics_preserved, parser_shaped and shallow, yet the generated program changes"
+			if d.base == "ReparsedStructureDiffers" && legacyCallAbsorbed(d.cs.TF, d.cs.P1) {
+				// the only cause: `text {! x }` is printed `text @x`, which the parser reads as one text node
+				shape = "LegacyCallAfterTextReadBackAsText"
+				detail = "a legacy call {! x } directly after text is printed as `text @x` on one line, which the parser reads back as a single text node: the component call becomes literal text"
+			} else {
+				shape = "guards-hold-program-differs"
+				predicted = false
+			}
+		}
+		shapeCount[shape]++
+		c.Hist("program differs: " + shape)
+		a, b := firstDiff(d.t1, d.t2)
+		if os.Getenv("C08_DEBUG") != "" {
+			fmt.Fprintf(os.Stderr, "C08_DEBUG %s %s\n--- source\n%s\n--- formatted\n%s\n--- %s\n+++ %s\n", shape, d.cs.Name, d.cs.Src, d.cs.P1, a, b)
+		}
+		if shapeCount[shape] <= 2 {
+			c.Fail("property", family, shape,
+				map[string]any{"file": d.cs.Name, "source": d.cs.Src, "formatted": d.cs.P1, "difference": d.base, "original_program_line": a, "formatted_program_line": b}, detail)
+		}
+	}
+	c.Oblige("correspondence", "on every accepted input whose templates all satisfy the guards of C08_render_preserved_partial (formatted text read back with another node structure included), the program generated from the formatted file equals the program generated from the original; only excepted, and reported as a property failure of its own shape: a legacy call printed onto the line of a preceding text and read back as text", predicted, "")
 	c.Oblige("correspondence", "formatter model first pass = TemplateFile.Write, byte for byte, on every accepted input", tie1, "")
 	c.Oblige("correspondence", "the formatted file is accepted by parse + generate + gofmt on every accepted input", accepted, "")
 	c.Oblige("correspondence", "program(generate(format x)) = program(generate x) on every accepted input (known findings excepted by shape)", same || true, "see failures / known findings")
